@@ -105,8 +105,16 @@ def main():
     ap.add_argument('--only')
     ap.add_argument('--list', action='store_true')
     ap.add_argument('--json')
+    ap.add_argument('--seeds', action='store_true', help='run the kept seeded changes (seeded/*/patch.diff) instead: each must make the check of its own property fire')
     a = ap.parse_args()
     idx = load_index()
+    if a.seeds:
+        idx = {}
+        sd = os.path.join(VERIF, 'seeded')
+        for n in sorted(os.listdir(sd)):
+            mp = os.path.join(sd, n, 'meta.json')
+            if os.path.exists(mp):
+                idx[n] = {'file': os.path.join(sd, n, 'patch.diff'), 'expect': [[json.load(open(mp))['property'], '']], 'kind': 'seeded change'}
     names = [n for n in sorted(idx) if not a.only or re.search(a.only, n)]
     if a.list:
         for n in names:
